@@ -20,7 +20,11 @@ Oracles (only what the statement claims):
    ``doit()`` must leave no foldable library class behind (that is what unfolding means).
    Replacing an *expression key* (a nested library instance or the instance itself) must give
    the instance rebuilt with that argument replaced (sympy's documented ``xreplace`` contract;
-   this is where ``rule[self]`` of the library's own ``_xreplace`` is exercised).
+   this is where ``rule[self]`` of the library's own ``_xreplace`` is exercised).  The same holds
+   for a *non-SymPy attribute value as key* (``{PhaseSpaceFactor: PhaseSpaceFactorAbs}``, the
+   feature pinned by the repository's ``test_xreplace_with_non_sympy_attributes``): every node
+   carrying the old value is rebuilt with the new one, whether the rule contains only that key,
+   also a symbol that does not occur, or also a symbol that does.
    A difference that appears only when a *symbolic angular momentum* is replaced by an integer
    (``BlattWeisskopfSquared.evaluate`` switches from the Hankel-function form to a cached
    polynomial that is only equal for z >= 0) is reported under its own kind
@@ -135,6 +139,9 @@ def fixed_cases(tier):
         # witnesses of F14 (dataclasses.astuple recursion in subs/xreplace)
         {**base, "expr": edw},
         {**base, "expr": edw, "mode": "subs"},
+        # xreplace with an attribute value as key: alone / beside an absent symbol (selfkey 1 above) / a present one
+        {**base, "expr": edw, "selfkey": 0},
+        {**base, "expr": edw, "selfkey": 2},
         {**base, "expr": ["cls", "BreakupMomentumSquared",
                           [["cls", "Kallen", [["sym", "x"], ["sym", "y"], ["sym", "z"]], {}], ["sym", "m_p"], ["sym", "w_p"]],
                           {"name": "q^2_x"}]},
@@ -716,6 +723,71 @@ def check_expression_key(e, tree, desc, labels, nontrivial):
     )
 
 
+def check_attribute_key(e, tree, desc, labels, nontrivial):
+    """xreplace with a non-SymPy attribute value as key (``{PhaseSpaceFactor: PhaseSpaceFactorAbs}``, the
+    feature pinned by the repository's ``test_xreplace_with_non_sympy_attributes``) == rebuild with that
+    attribute replaced in every node that carries it -- whether or not the same rule also contains
+    symbols, occurring in the expression or not."""
+    import dataclasses  # noqa: PLC0415
+
+    factors = G.phsp_factors()
+    names = sorted(factors)
+
+    def current(node):
+        cls = G.discover().get(node[1])
+        if cls is None or "phsp_factor" not in G.nonsympy_fields(cls):
+            return None
+        if "phsp_factor" in node[3]:
+            return node[3]["phsp_factor"]
+        default = next(f.default for f in dataclasses.fields(cls) if f.name == "phsp_factor")
+        return next((n for n, v in factors.items() if v is default), None)
+
+    carriers = [(path, node) for path, node in G.class_nodes(tree) if current(node) is not None]
+    if not carriers:
+        return None
+    sel = desc["selfkey"]
+    old_name = current(carriers[sel % len(carriers)][1])
+    others = [n for n in names if n != old_name]
+    new_name = others[(sel // 3 + desc["pair"]["j"]) % len(others)]
+    variant = ("attribute_only", "with_absent_symbol", "with_present_symbol")[sel % 3]
+    scalars = G.leaves(tree)["sym"]
+    if variant == "with_present_symbol" and not scalars:
+        variant = "with_absent_symbol"
+    rule = {factors[old_name]: factors[new_name]}
+    sym_old = sym_new = None
+    if variant == "with_absent_symbol":
+        rule[G.build(["sym", "nohit"])] = G.build(["sym", "u0"])
+    elif variant == "with_present_symbol":
+        sym_old = scalars[desc["pair"]["i"] % len(scalars)]
+        sym_new = "u1" if sym_old != "u1" else "u2"
+        rule[G.build(["sym", sym_old])] = G.build(["sym", sym_new])
+
+    def surgery(t):
+        if t[0] == "sym" and t[1] == sym_old:
+            return ["sym", sym_new]
+        if t[0] in {"add", "mul", "div"}:
+            return [t[0], surgery(t[1]), surgery(t[2])]
+        if t[0] in {"pow", "neg"}:
+            return [t[0], surgery(t[1]), *t[2:]]
+        if t[0] == "cls":
+            extra = t[3]
+            if current(t) == old_name:
+                extra = {**extra, "phsp_factor": new_name}
+            return [t[0], t[1], [surgery(a) for a in t[2]], extra]
+        return t
+
+    labels.append(f"attrkey:{variant}")
+    want = G.build(surgery(tree), under_test)
+    got = under_test("xreplace(attribute key)", e.xreplace, rule)
+    if G.digest(got) == G.digest(want) or got == want:
+        return None
+    return violation(
+        "xreplace_attribute_key", True, labels, variant=variant, old=old_name, new=new_name,
+        symbol_replaced=sym_old, n_carriers=len(carriers), got=str(got)[:300], want=str(want)[:300],
+        got_digest=G.digest(got)[:12], want_digest=G.digest(want)[:12],
+    )
+
+
 def check_pair(e, tree, desc, labels, nontrivial):
     variant, differs, what, changed = make_variant(tree, desc["pair"])
     labels.append(f"pair:{differs or 'same'}")
@@ -942,6 +1014,7 @@ def run_case(desc) -> Result:
     checks = [
         lambda: check_commute(e, d, tree, desc, labels, nontrivial),
         lambda: check_expression_key(e, tree, desc, labels, nontrivial),
+        lambda: check_attribute_key(e, tree, desc, labels, nontrivial),
         lambda: check_pair(e, tree, desc, labels, nontrivial),
         lambda: check_rebuild(e, labels, nontrivial),
         lambda: check_codegen(e, d, tree, labels, nontrivial),
@@ -949,7 +1022,7 @@ def run_case(desc) -> Result:
     if G.count_nodes(d, MAX_NODES_UNFOLDED) >= MAX_NODES_UNFOLDED:
         # the size estimate of the generator was too optimistic: keep the cheap laws only
         labels.append("unfolded_form_too_large:commute_and_codegen_skipped")
-        checks = checks[1:4]
+        checks = checks[1:5]
     for check in checks:
         try:
             res = check()
